@@ -9,7 +9,7 @@ git -C /repo worktree add -q $wt HEAD || exit 9
 PYTHONPATH=/repo timeout 300 /venv/bin/python $dir/demo.py >/dev/null 2>&1; echo "demo on clean tree: exit $?"
 PYTHONPATH=$wt timeout 300 /venv/bin/python $dir/demo.py >/dev/null 2>&1; echo "demo on changed tree: exit $?"
 if [ -z "$SKIP_TESTS" ]; then ( cd $wt && timeout 900 /venv/bin/python -m pytest -q -p no:cacheprovider -n 8 --timeout=900 2>&1 | tail -1 ); fi
-( cd /verif && EAO_REPO=$wt timeout -k 5 900 ./check $prop --tier quick --no-evidence "$@" > /tmp/seed_check.log 2>&1; echo "check exit $?" )
-grep -E "^(minimised|regression|VIOLATION|C[0-9]+:)" /tmp/seed_check.log | cut -c1-500
+( cd /verif && EAO_REPO=$wt timeout -k 5 900 ./check $prop --tier quick --no-evidence "$@" > $wt.log 2>&1; echo "check exit $?" )
+grep -E "^(minimised|regression|VIOLATION|C[0-9]+:)" $wt.log | cut -c1-500; rm -f $wt.log
 git -C /repo worktree remove --force $wt; git -C /repo worktree prune
 find /verif/replays -name "$prop-*.json" -newer $dir/patch.diff -delete 2>/dev/null
